@@ -40,7 +40,11 @@ def cfgOfJson (j : Json) : Except String Cfg := do
     | .ok Json.null => pure none
     | .ok x => do let n ← x.getNat?; pure (some n)
     | .error _ => pure none
-  pure { pickup := p, timeout := t, batch := b }
+  let bad : List Nat ← match j.getObjVal? "bad" with
+    | .ok Json.null => pure []
+    | .ok x => natsOf x
+    | .error _ => pure []
+  pure { pickup := p, timeout := t, batch := b, bad := bad }
 
 def visStr : Vis → String
   | .uncommitted tx => s!"uncommitted:{tx}"
